@@ -103,3 +103,37 @@ package stateless
 //@   ensures [same-as-listing-when-missing] !haskey(spt.optracker.operations, c) && haskey(pinset, c) && pinset[c].Type != api.MetaType && !remoteFor(pinset[c], spt.peerID) && rpcN == old(rpcN) + 1 && ipfsLacks(ips) && res.Status != api.TrackerStatusClusterError ==> res.Status == api.TrackerStatusUnexpectedlyUnpinned
 //@   ensures [table-untouched] spt.optracker.operations == old(spt.optracker.operations)
 //@   modifies heap(api.PinInfo), heap(api.IPFSPinStatus), rpcN, rpcLastSvc, rpcLastMethod
+
+// ---- C15: the stateless tracker's configuration section ----
+//@ spec func validCfg(cfg *Config) bool = cfg.MaxPinQueueSize > 0 && cfg.ConcurrentPins > 0
+
+// "the default configuration is valid"
+//@ func (cfg *Config) Default
+//@   property C15
+//@   ensures err == nil && validCfg(cfg) && cfg.MaxPinQueueSize == DefaultMaxPinQueueSize && cfg.ConcurrentPins == DefaultConcurrentPins
+//@   ensures forall o *Config :: o != cfg ==> *o == old(*o)
+//@   modifies heap(Config)
+
+//@ func (cfg *Config) Validate
+//@   property C15
+//@   ensures err == nil <==> validCfg(cfg)
+//@   modifies nothing
+
+// "any configuration the loader accepts passes validation"; zero means "keep the default"
+//@ func (cfg *Config) applyJSONConfig
+//@   property C15
+//@   ensures [accepted-is-valid] err == nil ==> validCfg(cfg)
+//@   ensures [rejected-is-refused] !validCfg(cfg) ==> err != nil
+//@   ensures [max-queue] cfg.MaxPinQueueSize == ite(jcfg.MaxPinQueueSize != 0, jcfg.MaxPinQueueSize, old(cfg.MaxPinQueueSize))
+//@   ensures [concurrent-pins] cfg.ConcurrentPins == ite(jcfg.ConcurrentPins != 0, jcfg.ConcurrentPins, old(cfg.ConcurrentPins))
+//@   modifies heap(Config), heap(int)
+
+// what is saved: the default queue size is omitted (saved as zero), everything else verbatim
+//@ func (cfg *Config) toJSONConfig
+//@   property C15
+//@   ensures res != nil && fresh(res) && res.ConcurrentPins == cfg.ConcurrentPins && res.MaxPinQueueSize == ite(cfg.MaxPinQueueSize != DefaultMaxPinQueueSize, cfg.MaxPinQueueSize, 0)
+//@   modifies nothing
+
+// save/load identity for every valid configuration: load = Default() then applyJSONConfig(saved)
+//@ lemma save_load_identity: forall m int, c int :: m > 0 && c > 0 ==> ite(ite(m != DefaultMaxPinQueueSize, m, 0) != 0, ite(m != DefaultMaxPinQueueSize, m, 0), DefaultMaxPinQueueSize) == m && ite(c != 0, c, DefaultConcurrentPins) == c
+//@   property C15
